@@ -174,6 +174,7 @@ def main():
     ap.add_argument("--runs", type=int)
     ap.add_argument("--skip-suite", action="store_true")
     ap.add_argument("--expect-silent", action="store_true")
+    ap.add_argument("--seed", type=int, default=0, help="VERIF_SEED for the check runs")
     a = ap.parse_args()
     work = "/dev/shm/bbsim_mut.%d" % os.getpid()
     report = {}
@@ -204,7 +205,7 @@ def main():
             else:
                 apply_edits(pkg, edits)
             missing = None if a.skip_suite else suite_passes(pkg)
-            rc, secs, lines, tail = run_check(prop, pkg, a.runs or RUNS[prop], os.path.join(work, "out"))
+            rc, secs, lines, tail = run_check(prop, pkg, a.runs or RUNS[prop], os.path.join(work, "out"), seed=a.seed)
             good = (rc == 1) if expect_violation else (rc == 0)
             if name.startswith("ineffective_"):
                 good = (rc == 2)
